@@ -14,11 +14,19 @@ import ast
 from . import canon
 
 
-def rename_locals(src: str, suffix: str = "__r", annotate: bool = True) -> tuple[str, int]:
+def rename_locals(src: str, suffix: str = "__r", annotate: bool = True, params: bool = True) -> tuple[str, int]:
     tree = ast.parse(src)
     renamed = 0
+    kw_names = canon.keyword_names(tree)
     for _q, fn in list(canon.qualnames(tree)):
         own = canon.own_nodes(fn)
+        # positional parameters of private functions that nobody passes by keyword
+        if params:
+            ids = canon.all_identifiers(fn)
+            for x in sorted(canon.renamable_params(fn, own, kw_names)):
+                if x + suffix not in ids:
+                    canon.rename_param(fn, own, x, x + suffix)
+                    renamed += 1
         cand, used = canon._renamable(fn, own)
         for x in sorted(cand):
             if x.startswith("__") or x + suffix in used:
